@@ -1,6 +1,7 @@
 package scen
 
 import (
+	"math"
 	"context"
 	"encoding/json"
 	"fmt"
@@ -34,6 +35,11 @@ type c13W struct {
 	Fanout    []int  `json:"fanout,omitempty"`   // dual: items returned by the loader for request i
 	Signals   []int  `json:"signals,omitempty"`  // positions at which a signal traveler is sent
 	CloseGap  int    `json:"close_gap_us,omitempty"`
+	// serializer pools: positions of items that cannot be encoded (a NaN
+	// property) or decoded (a malformed record). What stands for such an item in
+	// the output is not specified (the code forwards an empty record); the other
+	// items must still come out once each, in input order.
+	Bad []int `json:"bad,omitempty"`
 }
 
 func init() {
@@ -78,6 +84,11 @@ func genC13(r *Rng, tier string) *c13W {
 			w.N = r.Range(100, big)
 		}
 		w.Run.SlowSite, w.Run.SlowPct = "serializer.go", []int{0, 5, 30}[r.Intn(3)]
+		if r.Chance(30) && w.N > 0 {
+			for i := 0; i < 1+r.Intn(3); i++ {
+				w.Bad = append(w.Bad, r.Intn(w.N))
+			}
+		}
 	case "mux":
 		w.Pipes = r.Range(1, 5)
 		q := 50 / maxi(1, w.Run.CapDiv)
@@ -157,6 +168,13 @@ func shrinkC13(w *c13W) []interface{} {
 			}
 		}
 		n.Signals = sg
+		var bd []int
+		for _, s := range n.Bad {
+			if s < k {
+				bd = append(bd, s)
+			}
+		}
+		n.Bad = bd
 	}
 	for _, k := range []int{w.N / 2, w.N - 1} {
 		if k >= 0 && k < w.N {
@@ -168,6 +186,11 @@ func shrinkC13(w *c13W) []interface{} {
 	if w.Workers > 1 {
 		n := cp()
 		n.Workers = w.Workers - 1
+		out = append(out, n)
+	}
+	for i := range w.Bad {
+		n := cp()
+		n.Bad = append(n.Bad[:i], n.Bad[i+1:]...)
 		out = append(out, n)
 	}
 	if w.Run.SlowPct > 0 {
@@ -230,13 +253,26 @@ func execC13once(w *c13W, x *Exec) *Outcome {
 	res := x.Bubble(cfg, func(s *simrt.Sim) func() bool {
 		switch w.Comb {
 		case "marshal", "unmarshal", "roundtrip":
+			bad := map[int]bool{}
+			for _, b := range w.Bad {
+				bad[b] = true
+			}
+			if len(bad) > 0 {
+				o.Count("fault:unserializable_item", 1)
+			}
 			for i := 0; i < w.N; i++ {
-				want = append(want, strconv.Itoa(i))
+				if !bad[i] {
+					want = append(want, strconv.Itoa(i))
+				}
 			}
 			in := make(chan gdbi.Traveler, 3)
 			simrt.Go("client:producer", func() {
 				for i := 0; i < w.N; i++ {
 					hyield("h:prod-send")
+					if bad[i] && w.Comb != "unmarshal" {
+						in <- &gdbi.BaseTraveler{Current: &gdbi.DataElement{ID: strconv.Itoa(i), Label: "L", Data: map[string]interface{}{"i": math.NaN()}, Loaded: true}}
+						continue
+					}
 					in <- trav(i)
 				}
 				hyield("h:prod-close")
@@ -273,6 +309,9 @@ func execC13once(w *c13W, x *Exec) *Outcome {
 							break
 						}
 						b, _ := json.Marshal(t)
+						if id, _ := strconv.Atoi(curID(t)); bad[id] && curID(t) == strconv.Itoa(id) {
+							b = []byte("{\"Current\": {not json")
+						}
 						hyield("h:enc-send")
 						bin <- b
 					}
@@ -521,6 +560,16 @@ func execC13once(w *c13W, x *Exec) *Outcome {
 	if !inputDoneAtClose {
 		o.Violation = &Violation{Signature: "C13/" + w.Comb + "/closed-before-input-exhausted", Detail: "output closed while the producer had not finished"}
 		return o
+	}
+	if len(w.Bad) > 0 {
+		// whatever stands for an item that cannot be encoded or decoded is not judged
+		var g2 []string
+		for _, g := range got {
+			if g != "<nil>" {
+				g2 = append(g2, g)
+			}
+		}
+		got = g2
 	}
 	if d := seqDiff(want, got); d != "" {
 		o.Violation = &Violation{Signature: "C13/" + w.Comb + "/" + seqDiffKind(want, got), Detail: d}
